@@ -12,6 +12,7 @@ Decided:
     with an index field of the buffer; recycle_rx_buffer stores the buffer into the slot of the token returned by the
     new add, after that add succeeded, and records that token in the same index field; can_recv <=> peek_used is
     Some; can_send <=> at least the descriptors of the transmit shape are free.
+ S5 completions consumed with a token read from the used ring use the buffer looked up by that token (C07.T5).
 Not decided: "posted + owned = all buffers at all times" over histories.
 """
 from .common import *
